@@ -1,6 +1,6 @@
 import importlib
 
-MODULES = ['traversal', 'equality', 'payload', 'locks', 'registry_cxx', 'safety']
+MODULES = ['traversal', 'equality', 'payload', 'locks', 'registry_cxx', 'safety', 'py_ops']
 
 
 def load_all():
